@@ -78,3 +78,10 @@ Proof. split; reflexivity. Qed.
 Example reach_hyp : fan_cap (new_fan [true; true; true]) = true /\ length [true; true; true] <= ncalls (calls 3) /\
   holds (run (new_fan [true; true; true]) false [1]%Z (calls 3)) 2 0.
 Proof. slv. Qed.
+
+(* the caller's context ends while consumer 0 is being called: consumers 1 and 2 are still invoked and find
+   the context done *)
+Definition w_cancel := run (new_fan [false; false; false]) false [1]%Z [LCall; LCancel; LCall; LCall].
+Example cancel_calls : calls_of (elog w_cancel) = [0; 1; 2] /\ ctx_done (elog w_cancel) = true /\
+  strip (elog w_cancel) = elog (run (new_fan [false; false; false]) false [1]%Z (calls 3)).
+Proof. slv. Qed.
